@@ -1276,7 +1276,7 @@ func (p *KVStore) DeletePayment(_ context.Context, paymentHash lntypes.Hash,
 	return kvdb.Update(p.db, func(tx kvdb.RwTx) error {
 		payments := tx.ReadWriteBucket(paymentsRootBucket)
 		if payments == nil {
-			return nil
+			return ErrPaymentNotInitiated
 		}
 
 		bucket := payments.NestedReadWriteBucket(paymentHash[:])
